@@ -791,6 +791,11 @@ mod huffman {
                         }
                     }
 
+                    if self.pending_bits == 0 && std::ptr::eq(map, self.decode) {
+                        // Nothing left to decode: the item has ended on a symbol boundary.
+                        return None;
+                    }
+
                     if self.pending_bits < 8 {
                         // We have run out of bytes. We may yet be able to decode the remaining bits.
                         // Promote the valid bits and consult the map; if it only consumes valid bits,
